@@ -130,6 +130,13 @@ def h14 : List String → Option String
     some (runFrames (fun s x => match delayProcessE s x with
       | .ok r => some (r.1, fmtFloatArr r.2)
       | .error _ => none) (delayInitWith ini) frames)
+  | "dlyJ" :: rest => do
+    let (ini, rest) ← takeCxs rest
+    let nf ← (← rest.head?).toNat?
+    let (frames, _) ← takeFramesC nf rest.tail
+    some (runFrames (fun s x => match delayProcessE s x with
+      | .ok r => some (r.1, fmtCxArr r.2)
+      | .error _ => none) (delayInitWith ini) frames)
   | "tunx" :: fs :: f :: rest => do
     let fs ← fs.toNat?
     let f ← parseF f
